@@ -51,7 +51,8 @@ Record layer := mkLayer {
   lqueryable : bool;                     (* has info_sources *)
   lmax_tiles : option Z;                 (* max_tile_limit (None or 0: no limit) *)
   lmixed : bool;                         (* cache `format: mixed` (request_format image/png) *)
-  lminimize : bool                       (* cache `minimize_meta_requests: true` *)
+  lminimize : bool;                      (* cache `minimize_meta_requests: true` *)
+  lbuf : Z                               (* meta_buffer in pixels (0: none) *)
 }.
 
 (* TileLayer.format / format_mime_type: a layer on a mixed cache offers image/png and nothing else (the stored tile
@@ -82,14 +83,31 @@ Definition meta_members (ly : layer) (m : coord) : list (option coord) :=
   let ys := if ul (lg ly) then zrange y0 (y0 + my - 1) else rev (zrange y0 (y0 + my - 1)) in
   create_tile_list xs ys l (grid_size (lg ly) l).
 
-(* MetaGrid.unbuffered_meta_bbox / _size_from_buffered_bbox *)
+(* MetaGrid.unbuffered_meta_bbox *)
 Definition meta_bbox (ly : layer) (m : coord) : bbox :=
   let '(x0, y0, l) := m in
   let '(mx, my) := meta_size ly l in
   merge_bbox (tile_bbox (lg ly) x0 y0 l) (tile_bbox (lg ly) (x0 + mx - 1) (y0 + my - 1) l).
-Definition meta_px (ly : layer) (m : coord) : Z * Z :=
-  let '(_, _, l) := m in
-  let '(mx, my) := meta_size ly l in (mx * tw (lg ly), my * th (lg ly)).
+
+(* Python round(n / d) for d > 0: to the nearest integer, halves to the even one *)
+Definition round_half_even (n d : Z) : Z :=
+  let q := n / d in
+  let r := n mod d in
+  if 2 * r <? d then q else if d <? 2 * r then q + 1 else if Z.even q then q else q + 1.
+
+(* MetaGrid._buffered_bbox (limit_to_grid_bbox): meta_buffer pixels are added on every side, then the box is cut
+   down to the grid bbox; without a buffer the box is left as it is (it may reach over the grid bbox) *)
+Definition buffered_bbox (ly : layer) (l : Z) (b : bbox) : bbox :=
+  if lbuf ly <=? 0 then b
+  else
+    let d := lbuf ly * res_at (lg ly) l in
+    let '(x0, y0, x1, y1) := b in
+    (Z.max (gx0 (lg ly)) (x0 - d), Z.max (gy0 (lg ly)) (y0 - d), Z.min (gx1 (lg ly)) (x1 + d), Z.min (gy1 (lg ly)) (y1 + d)).
+
+(* MetaGrid._size_from_buffered_bbox *)
+Definition bbox_px (ly : layer) (l : Z) (b : bbox) : Z * Z :=
+  let '(x0, y0, x1, y1) := b in
+  (round_half_even (x1 - x0) (res_at (lg ly) l), round_half_even (y1 - y0) (res_at (lg ly) l)).
 
 Fixpoint somes {A} (l : list (option A)) : list A :=
   match l with
@@ -104,18 +122,23 @@ Fixpoint dedup_coords (l : list coord) : list coord :=
   | c :: r => if coord_in c r then dedup_coords r else c :: dedup_coords r
   end.
 
-(* one meta tile: upstream request for its bbox, store of every member inside the grid *)
+Definition cx (c : coord) : Z := fst (fst c).
+Definition cy (c : coord) : Z := snd (fst c).
+Definition cl (c : coord) : Z := snd c.
+
+(* the upstream request for the (meta) tile block ub of level l *)
+Definition up_request (ly : layer) (l : Z) (ub : bbox) : effect :=
+  let bb := buffered_bbox ly l ub in
+  let '(w, h) := bbox_px ly l bb in EUp bb w h.
+
+(* one meta tile: upstream request for its buffered bbox, store of every member inside the grid *)
 Definition create_meta (ly : layer) (m : coord) : list effect :=
-  let '(w, h) := meta_px ly m in
   let mem := somes (meta_members ly m) in
-  map EProbe mem ++ [EUp (meta_bbox ly m) w h] ++ map EStore mem.
+  map EProbe mem ++ [up_request ly (cl m) (meta_bbox ly m)] ++ map EStore mem.
 
 (* MetaGrid.minimal_meta_tile + TileCreator._create_meta_tile (minimize_meta_requests, more than one missing tile):
    one upstream request for the bounding block of the missing tiles (level of the last one, as _full_tile_list
    takes it), every tile of the block is stored *)
-Definition cx (c : coord) : Z := fst (fst c).
-Definition cy (c : coord) : Z := snd (fst c).
-Definition cl (c : coord) : Z := snd c.
 Definition minimal_meta (ly : layer) (missing : list coord) : list effect :=
   match rev missing with
   | [] => []
@@ -129,14 +152,13 @@ Definition minimal_meta (ly : layer) (missing : list coord) : list effect :=
     let ys := if ul (lg ly) then zrange miny maxy else rev (zrange miny maxy) in
     let mem := somes (create_tile_list xs ys z (maxx + 1, maxy + 1)) in
     map EProbe mem ++
-    [EUp (merge_bbox (tile_bbox (lg ly) minx miny z) (tile_bbox (lg ly) maxx maxy z))
-         ((maxx - minx + 1) * tw (lg ly)) ((maxy - miny + 1) * th (lg ly))] ++
+    [up_request ly z (merge_bbox (tile_bbox (lg ly) minx miny z) (tile_bbox (lg ly) maxx maxy z))] ++
     map EStore mem
   end.
 
-(* TileCreator.create_tiles: no meta grid (meta_size 1x1, no buffer) -> single tiles; minimize_meta_requests and
+(* TileCreator.create_tiles: no meta grid (meta_size 1x1 and no meta_buffer) -> single tiles; minimize_meta_requests and
    more than one missing tile -> one minimal meta tile; else one request per distinct meta tile *)
-Definition has_meta_grid (ly : layer) : bool := negb ((lmx ly =? 1) && (lmy ly =? 1)).
+Definition has_meta_grid (ly : layer) : bool := (0 <? lbuf ly) || negb ((lmx ly =? 1) && (lmy ly =? 1)).
 
 Definition load_tile_coords (ly : layer) (cached : list coord) (cs : list (option coord)) : list effect :=
   let req := somes cs in
